@@ -164,8 +164,36 @@ def gen_cell(rng, safe):
     return c
 
 
-def gen_dataset(rng, n, ncols=None, short=False, distinct=False, plain=False):
+PK_KINDS = ["text", "text", "composite", "int", "integer", "text_norowid", "composite_norowid"]
+
+
+def sql_layout(ds):
+    """DDL of the SQLite table for a dataset and the order in which `SELECT * FROM t` (sqlite3 module, no
+    Snowfakery involved) returns its rows after they were inserted in file order: the reference for SQL uses.
+    With a primary key that order can differ from insertion order (rowid alias, WITHOUT ROWID, covering index)."""
+    h = ds["header"]
+    pk = ds.get("pk")
+    typ = {0: "INT" if pk == "int" else "INTEGER" if pk == "integer" else "TEXT"}
+    cols = ['"%s" %s' % (c, typ.get(i, "TEXT")) for i, c in enumerate(h)]
+    if pk in ("text", "int", "integer", "text_norowid"):
+        cols[0] += " PRIMARY KEY"
+    elif pk in ("composite", "composite_norowid"):
+        cols.append('PRIMARY KEY ("%s", "%s")' % (h[1], h[0]))
+    ddl = "create table t (%s)%s" % (", ".join(cols), " WITHOUT ROWID" if pk and pk.endswith("norowid") else "")
+    con = sqlite3.connect(":memory:")
+    con.execute(ddl)
+    con.executemany("insert into t values (%s)" % ",".join("?" * len(h)), ds["rows"])
+    got = [[(c if (c is None or isinstance(c, str)) else str(c)) for c in r] for r in con.execute("select * from t")]
+    con.close()
+    return ddl, got
+
+
+def gen_dataset(rng, n, ncols=None, short=False, distinct=False, plain=False, pk=None):
     ncols = ncols or rng.choice([1, 2, 2, 3, 4])
+    if pk and "composite" in pk and ncols < 2:
+        pk = "text"
+    if pk:
+        short, distinct = False, True
     header = rng.sample(NAMES, ncols)
     safe_cols = [rng.random() < 0.7 for _ in header]
     rows = []
@@ -177,13 +205,21 @@ def gen_dataset(rng, n, ncols=None, short=False, distinct=False, plain=False):
             keep = rng.randint(1, ncols - 1)
             row = row[:keep] + [None] * (ncols - keep)
         rows.append(row)
+    if pk in ("int", "integer"):
+        for r, v in zip(rows, rng.sample(range(1, 900), n)):     # unique, not in ascending order
+            r[0] = str(v)
     ds = {"header": header, "rows": rows, "safe": safe_cols,
           "bom": rng.random() < 0.3}
+    if pk:
+        ds["pk"] = pk
     ds["text"] = render_csv(rng, header, rows, crlf=rng.random() < 0.4,
                             quote=rng.choice(["minimal", "minimal", "all", "random"]),
                             blank=rng.random() < 0.15, final_eol=rng.random() < 0.85)
     h, recs = decode_reference(ds)
     assert h == header and recs == rows, ("generator/decoder mismatch", ds, h, recs)
+    if pk:
+        ds["ddl"], ds["sql_rows"] = sql_layout(ds)
+        assert sorted(map(tuple, ds["sql_rows"])) == sorted(map(tuple, rows))
     return ds
 
 
@@ -235,8 +271,21 @@ def all_uses(case):
     return out
 
 
-def data_of(case, u):
-    return case["datasets"][u["ds"]]["rows"]
+def ds_of(case, u, cur=None):
+    """the dataset a use reads; a computed name (`dyn`) needs the current records of the enclosing loops"""
+    dyn = u.get("dyn")
+    if dyn and cur is not None and dyn["outer"] in cur:
+        outer_ds = case["datasets"][dyn["outer_ds"]]
+        v = cur[dyn["outer"]][outer_ds["header"].index(dyn["col"])]
+        return case["datasets"][v[:-4] if v.endswith(".csv") else v]
+    return case["datasets"][u["ds"]]
+
+
+def data_of(case, u, cur=None):
+    ds = ds_of(case, u, cur)
+    if u["src"] == "sql" and "sql_rows" in ds:
+        return ds["sql_rows"]          # table order as sqlite3 itself reads it (primary keys may reorder)
+    return ds["rows"]
 
 
 def col_index(case, u, name):
@@ -255,11 +304,12 @@ def _sid(counter):
 
 def gen_consumer_case(rng, n=None, m=None, mode=None, repeat="?", src=None, placement=None, iters=None):
     n = rng.randint(0, 7) if n is None else n
-    ds = gen_dataset(rng, n, short=rng.random() < 0.15, distinct=rng.random() < 0.5)
+    src = src or rng.choice(["csv", "csv", "sql"])
+    pk = rng.choice(PK_KINDS) if (src == "sql" and rng.random() < 0.6) else None
+    ds = gen_dataset(rng, n, short=rng.random() < 0.15, distinct=rng.random() < 0.5, pk=pk)
     m = rng.randint(0, 3 * n + 2) if m is None else m
     mode = mode or rng.choice(["iterate", "iterate", "shuffle"])
     repeat = rng.choice([None, None, True, False]) if repeat == "?" else repeat
-    src = src or rng.choice(["csv", "csv", "sql"])
     placement = placement or rng.choice(["top", "top", "friend", "nested", "deep", "two_sites", "two_templates"])
     iters = iters or rng.choice([1, 1, 2])
     u = use("d0", src, mode, repeat, table=rng.random() < 0.6)
@@ -304,17 +354,23 @@ def pick_pass(rng, ds, allow_missing=False):
 
 def gen_foreach_case(rng, n=None, mode=None, src=None, placement=None, iters=None):
     n = rng.randint(0, 7) if n is None else n
-    ds = gen_dataset(rng, n, short=rng.random() < 0.15, distinct=rng.random() < 0.6)
+    src = src or rng.choice(["csv", "csv", "sql"])
+    pk = rng.choice(PK_KINDS) if (src == "sql" and rng.random() < 0.6) else None
+    ds = gen_dataset(rng, n, short=rng.random() < 0.15, distinct=rng.random() < 0.6, pk=pk)
     # projected columns must exist on every record that has them (a short line renders as None: fine)
     mode = mode or rng.choice(["iterate", "iterate", "shuffle"])
-    src = src or rng.choice(["csv", "csv", "sql"])
     placement = placement or rng.choice(["top", "top", "friend", "nested", "inner_foreach", "with_children"])
     iters = iters or rng.choice([1, 1, 2])
     u = use("d0", src, mode, rng.choice([None, None, True, False]), table=rng.random() < 0.6)
     fe = tmpl(1, ["foreach", u], pas=pick_pass(rng, ds, allow_missing=True), nick=rng.random() < 0.2)
     datasets = {"d0": ds}
+    target = None
     if placement == "top":
         recipe = [fe]
+        if n > 0 and rng.random() < 0.25:
+            # stopping criterion on the for_each table: a for_each is evaluated afresh in every iteration
+            target = rng.choice([n - 1, n, n + 1, 2 * n, 2 * n + 1]) or 1
+            iters = -(-target // n)
     elif placement == "friend":
         recipe = [tmpl(2, ["count", rng.randint(0, 3)], friends=[fe])]
     elif placement == "nested":
@@ -331,8 +387,11 @@ def gen_foreach_case(rng, n=None, mode=None, src=None, placement=None, iters=Non
         fe["friends"] = [tmpl(2, ["count", rng.randint(0, 2)])]
         fe["nested"] = [tmpl(3, ["default"])] if rng.random() < 0.5 else []
         recipe = [fe]
-    return {"kind": "run", "datasets": datasets, "recipe": recipe, "iters": iters,
+    case = {"kind": "run", "datasets": datasets, "recipe": recipe, "iters": iters,
             "tick": iters > 1 or rng.random() < 0.3, "raw": [rng.randint(0, 10 ** 6) for _ in range(80)]}
+    if target:
+        case.update(target=target, tick=False)
+    return case
 
 
 def gen_scope_case(rng):
@@ -377,9 +436,13 @@ def gen_update_case(rng, n=None):
         ds1 = gen_dataset(rng, rng.randint(0, 3), distinct=True)
         datasets["d1"] = ds1
         t["friends"] = [tmpl(2, ["foreach", use("d1", "csv", "iterate", None)], pas=pick_pass(rng, ds1))]
-    return {"kind": "update", "datasets": datasets, "recipe": recipe, "input": "d0",
-            "passthrough": pick_pass(rng, ds, allow_missing=True), "iters": 1, "tick": False,
-            "raw": [rng.randint(0, 10 ** 6) for _ in range(20)]}
+    case = {"kind": "update", "datasets": datasets, "recipe": recipe, "input": "d0",
+            "passthrough": pick_pass(rng, ds, allow_missing=False if r >= 0.45 and rng.random() < 0.5 else True),
+            "iters": 1, "tick": False, "raw": [rng.randint(0, 10 ** 6) for _ in range(20)]}
+    if r >= 0.6 and rng.random() < 0.6:
+        # a stopping criterion on the updated table: at most n rows exist; asking for more must be an error
+        case["target"] = rng.choice([max(n - 1, 1), max(n, 1), n + 1, 2 * n + 1, 3 * n])  or 1
+    return case
 
 
 def _raw(rng, k=40):
@@ -426,6 +489,47 @@ def gen_interleaved_case(rng, n=None):
         recipe = [tmpl(1, ["foreach", ua()], sites=[[2, ub()]])]
         iters = rng.randint(2, 3)
     return {"kind": "run", "datasets": {"d0": ds}, "recipe": recipe, "iters": iters, "tick": True, "raw": _raw(rng)}
+
+
+def gen_dyn_case(rng):
+    """nested for_each whose dataset (file name, or table of one database) is computed from the record of the
+    outer loop, directly or through a field of the enclosing row: every outer record names a DIFFERENT file with
+    different content and length.  Outside the Coq model (its templates are static): oracle only."""
+    k = rng.randint(2, 4)
+    header = rng.sample([h for h in NAMES if h not in ("k1",)], rng.choice([1, 2]))
+    what = rng.choice(["file", "file", "table"])
+    names = ["e%d" % i for i in range(k)]
+    lens = rng.sample(range(0, 6), k)
+    datasets = {}
+    for nm, ln in zip(names, lens):
+        d = gen_dataset(rng, ln, ncols=len(header), distinct=True)
+        d["header"] = header
+        d["text"] = render_csv(rng, header, d["rows"], False, "minimal", False, True)
+        d["bom"] = False
+        for r in d["rows"]:
+            r[0] = nm + "_" + r[0]
+        d["text"] = render_csv(rng, header, d["rows"], False, "minimal", False, True)
+        datasets[nm] = d
+    order = names[:]
+    rng.shuffle(order)
+    if rng.random() < 0.4:
+        order.append(rng.choice(names))                      # a file can be named twice
+    col = "file" if what == "file" else "tbl"
+    outer_rows = [["o%d" % i, (nm + ".csv") if what == "file" else nm] for i, nm in enumerate(order)]
+    od = {"header": ["k1", col], "rows": outer_rows, "safe": [True, True], "bom": False}
+    od["text"] = render_csv(rng, od["header"], outer_rows, False, "minimal", False, True)
+    datasets["d1"] = od
+    via = rng.choice(["var", "field"])
+    place = rng.choice(["friend", "friend", "nested"])
+    u = use(names[0], "csv" if what == "file" else "sql", rng.choice(["iterate", "iterate", "shuffle"]), None)
+    u["dyn"] = {"outer": 2, "outer_ds": "d1", "col": col, "via": via, "what": what, "cands": names, "place": place}
+    inner = tmpl(1, ["foreach", u], pas=[header[0]] if rng.random() < 0.5 else [])
+    outer = tmpl(2, ["foreach", use("d1", "csv", "iterate", None)], pas=["k1"],
+                 friends=[inner] if place == "friend" else [], nested=[inner] if place == "nested" else [])
+    if via == "field":
+        outer["extra"] = [["fname", "${{v2.%s}}" % col]]
+    iters = rng.choice([1, 2])
+    return {"kind": "run", "datasets": datasets, "recipe": [outer], "iters": iters, "tick": iters > 1, "raw": _raw(rng)}
 
 
 BIG_SIZES = [499, 500, 501, 1000, 1300]
@@ -531,6 +635,8 @@ def generate(rng, tier):
         cases.append(gen_long_case(rng))
     for _ in range(50 * k):
         cases.append(gen_interleaved_case(rng))
+    for _ in range(30 * k):
+        cases.append(gen_dyn_case(rng))
     cases.extend(big_cases(rng, tier))
     if tier == "thorough":
         cases.extend(exhaustive_cases(rng))
@@ -542,7 +648,14 @@ def _render_use(u, indent, root):
     pad = " " * indent
     fn = "Dataset.iterate" if u["mode"] == "iterate" else "Dataset.shuffle"
     lines = [f"{pad}{fn}:"]
-    if u["src"] == "csv":
+    dyn = u.get("dyn")
+    if dyn:
+        expr = "${{v%d.%s}}" % (dyn["outer"], dyn["col"]) if dyn["via"] == "var" else "${{T%d.fname}}" % dyn["outer"]
+        if dyn["what"] == "file":
+            lines.append(f"{pad}  dataset: {expr}")
+        else:
+            lines += [f"{pad}  dataset: sqlite:///{root}/multi.db", f"{pad}  table: {expr}"]
+    elif u["src"] == "csv":
         lines.append(f"{pad}  dataset: {u['ds']}.csv")
     else:
         lines.append(f"{pad}  dataset: sqlite:///{root}/{u['ds']}.db")
@@ -571,6 +684,8 @@ def _render_tmpl(t, indent, root, var_override=None):
     for sid, u in t["sites"]:
         lines.append(f"{pad}    s{sid}:")
         lines += _render_use(u, indent + 6, root)
+    for fname, expr in t.get("extra", []):
+        lines.append(f"{pad}    {fname}: {expr}")
     for ch in t["nested"]:
         lines.append(f"{pad}    n{ch['tid']}:")
         lines += _render_tmpl(ch, indent + 6, root)
@@ -600,7 +715,7 @@ def render_recipe(case, root):
 def _ser(v):
     res = getattr(v, "__dict__", {}).get("result") if not isinstance(v, (str, int, float, type(None))) else None
     if res is not None and hasattr(res, "items"):
-        return {"rec": [[k if isinstance(k, str) else repr(k), x if (x is None or isinstance(x, str)) else {"other": repr(x)[:40]}]
+        return {"rec": [[k if isinstance(k, str) else repr(k), x if (x is None or isinstance(x, str)) else {"int": x} if (isinstance(x, int) and not isinstance(x, bool)) else {"other": repr(x)[:40]}]
                         for k, x in res.items()]}
     if v is None or isinstance(v, str) or (isinstance(v, int) and not isinstance(v, bool)):
         return v
@@ -628,10 +743,23 @@ def _run(case, root):
         if name in sql_used:
             con = sqlite3.connect(os.path.join(root, name + ".db"))
             cols = ", ".join('"%s" TEXT' % h for h in ds["header"])
-            con.execute(f"create table t ({cols})")
+            con.execute(ds.get("ddl") or f"create table t ({cols})")
             con.executemany("insert into t values (%s)" % ",".join("?" * len(ds["header"])), ds["rows"])
             con.commit()
+            if "sql_rows" in ds:
+                got = [[(c if (c is None or isinstance(c, str)) else str(c)) for c in r] for r in con.execute("select * from t")]
+                assert got == ds["sql_rows"], "sqlite3 reads the table in another order than at generation time"
             con.close()
+    multi = sorted({c for _k, _t, _s, u, _b in all_uses(case) if u.get("dyn", {}).get("what") == "table"
+                    for c in u["dyn"]["cands"]})
+    if multi:
+        con = sqlite3.connect(os.path.join(root, "multi.db"))
+        for name in multi:
+            ds = case["datasets"][name]
+            con.execute('create table "%s" (%s)' % (name, ", ".join('"%s" TEXT' % h for h in ds["header"])))
+            con.executemany('insert into "%s" values (%s)' % (name, ",".join("?" * len(ds["header"]))), ds["rows"])
+        con.commit()
+        con.close()
     recipe_path = os.path.join(root, "recipe.yml")
     with open(recipe_path, "w", encoding="utf-8") as f:
         f.write(render_recipe(case, root))
@@ -641,6 +769,8 @@ def _run(case, root):
         kw["update_passthrough_fields"] = list(case["passthrough"])
     elif case.get("tick"):
         kw["target_number"] = ("Tick", case["iters"])
+    if case.get("target"):
+        kw["target_number"] = ("T%d" % case["recipe"][0]["tid"], case["target"])
     del _ROWS[:]
     _CAP[0] = case.get("cap", 1500)
     out = {}
@@ -663,8 +793,11 @@ class Undecodable(Exception):
     pass
 
 
-def _align(recpairs, header):
+def _align(recpairs, ds):
     """[[key, value], ...] -> cells in header order (exact key match, every key exactly once)"""
+    header = ds["header"]
+    if ds.get("pk") in ("int", "integer"):       # the key column is numeric in the SQL table, text in the CSV file
+        recpairs = [[k, (str(v["int"]) if (k == header[0] and isinstance(v, dict) and "int" in v) else v)] for k, v in recpairs]
     keys = [k for k, _ in recpairs]
     if sorted(keys) != sorted(header):
         raise Undecodable(f"record keys {keys} differ from the header {header}")
@@ -691,11 +824,12 @@ def decode(case, obs):
         except ValueError:
             raise Undecodable(f"child_index is {vals.get('ci')!r}")
         if t["loop"][0] == "foreach":
-            header = case["datasets"][t["loop"][1]["ds"]]["header"]
+            fds = case["datasets"][t["loop"][1]["ds"]]
             w = vals.get("w")
             try:
                 d = ast.literal_eval(w)
-                row["fe"] = _align([[k, v] for k, v in d.items()], header)
+                row["fe"] = _align([[k, ({"int": v} if (isinstance(v, int) and not isinstance(v, bool)) else v)]
+                                    for k, v in d.items()], fds)
             except Undecodable:
                 raise
             except Exception:
@@ -710,7 +844,7 @@ def decode(case, obs):
             v = vals.get(f"s{sid}")
             if not (isinstance(v, dict) and "rec" in v):
                 raise Undecodable(f"field s{sid} is not a dataset record: {v!r}")
-            row["cons"].append((sid, _align(v["rec"], case["datasets"][u["ds"]]["header"])))
+            row["cons"].append((sid, _align(v["rec"], case["datasets"][u["ds"]])))
         rows.append(row)
     return rows
 
@@ -828,6 +962,8 @@ def infer_draws(case, rows):
 def coq_case(case, obs):
     if any("long" in ds for ds in case["datasets"].values()):
         return None                 # malformed file: outside the model, oracle only
+    if any(u.get("dyn") for _k, _t, _s, u, _b in all_uses(case)):
+        return None                 # dataset name computed at run time: the model's templates are static
     try:
         rows = decode(case, obs)
     except Undecodable:
@@ -870,6 +1006,7 @@ def spec_run(case):
         return counts, True, events
     used = Counter()
     passes = Counter()
+    cur = {}
 
     def start(key, u):
         if u["mode"] == "shuffle":
@@ -881,7 +1018,8 @@ def spec_run(case):
         fe_bad = None
         if loop[0] == "foreach":
             start(("fe", t["tid"]), loop[1])
-            reps = len(data_of(case, loop[1]))
+            fe_data = data_of(case, loop[1], cur)
+            reps = len(fe_data)
             fe_bad = case["datasets"][loop[1]["ds"]].get("long")
             if fe_bad is not None and loop[1]["mode"] == "shuffle":
                 raise _SpecStop()
@@ -890,6 +1028,8 @@ def spec_run(case):
         for i in range(reps):
             if fe_bad is not None and i == fe_bad:
                 raise _SpecStop()
+            if loop[0] == "foreach" and loop[1]["mode"] == "iterate":
+                cur[t["tid"]] = fe_data[i]
             for sid, u in t["sites"]:
                 n = len(data_of(case, u))
                 k = used[sid]
@@ -917,6 +1057,10 @@ def spec_run(case):
                 gen(t)
     except _SpecStop:
         return counts, True, events
+    if case["kind"] == "update" and case.get("target") and counts[top[0]["tid"]] < case["target"]:
+        # update mode reads its input once (one shared non-repeating iterator): a second iteration finds it
+        # used up, writes nothing, and the run must stop with an error, never start the file again
+        return counts, "target", events
     return counts, False, events
 
 
@@ -929,12 +1073,58 @@ def _render(c):
     return "None" if c is None else c
 
 
+def _oracle_dyn(case, rows, t, u, err):
+    """inner for_each whose dataset is named by the outer record: the rows written for outer record r must be the
+    records of the file / table that r names, in order (or each once), child_index 0..n-1"""
+    dyn = u["dyn"]
+    segs, pending = [], []
+    for r in rows:
+        if r["tid"] == t["tid"]:
+            if dyn["place"] == "friend":
+                if not segs:
+                    return f"for_each: T{t['tid']} wrote a row before any row of its parent"
+                segs[-1][1].append(r)
+            else:
+                pending.append(r)
+        elif r["tid"] == dyn["outer"]:
+            segs.append((r, pending if dyn["place"] == "nested" else []))
+            pending = []
+    if pending and not err:
+        return f"for_each: rows of T{t['tid']} without a parent row"
+    for si, (orow, inner) in enumerate(segs):
+        if orow["fe"] in (None, "unavailable"):
+            continue
+        data = data_of(case, u, {dyn["outer"]: orow["fe"]})
+        n = len(data)
+        last = si == len(segs) - 1
+        if [r["ci"] for r in inner] != list(range(len(inner))):
+            return f"for_each: child_index sequence of T{t['tid']} under {orow['fe']} is {[r['ci'] for r in inner]}"
+        if len(inner) > n or (len(inner) < n and not (last and err)):
+            return f"for_each: T{t['tid']} wrote {len(inner)} rows under {orow['fe']}, whose dataset has {n} records"
+        fes = [r["fe"] for r in inner]
+        if any(f == "unavailable" for f in fes):
+            continue
+        if u["mode"] == "iterate" and fes != data[:len(fes)]:
+            return f"for_each: under {orow['fe']} T{t['tid']} saw {fes}, the dataset named there has {data}"
+        if u["mode"] == "shuffle" and (Counter(map(tuple, fes)) - Counter(map(tuple, data))):
+            return f"for_each: under {orow['fe']} T{t['tid']} (shuffled) saw {fes}, the dataset named there has {data}"
+        for r in inner:
+            for name, got in zip(t["pass"], r["pas"]):
+                ci = col_index(case, u, name)
+                if ci >= len(r["fe"]) or got != _render(r["fe"][ci]):
+                    return f"for_each: column {name} of {r['fe']} arrived as {got!r}"
+    return None
+
+
 def oracle(case, obs):
     for name, ds in case["datasets"].items():
         h, recs = decode_reference(ds)
         if h != ds["header"] or recs != ds["rows"]:
             raise AssertionError(f"reference decoder disagrees with the generator on {name}")
     err = obs.get("err")
+    counts, must_fail, _ev = spec_run(case)
+    if err == "RuntimeError" and must_fail == "target":
+        err = "DGE"       # "... At this rate we will never hit our target": the input is used up, the run stops with an error
     if err is not None and err != "DGE":
         return f"outcome: the run ended with {err} ({obs.get('msg', '')[:80]}) instead of rows or a DataGenError"
     try:
@@ -944,6 +1134,11 @@ def oracle(case, obs):
     top, _ = effective_top(case)
     uses = all_uses(case)
     for kind, t, sid, u, rc in uses:
+        if u.get("dyn"):
+            msg = _oracle_dyn(case, rows, t, u, err)
+            if msg:
+                return msg
+            continue
         data = data_of(case, u)
         n = len(data)
         trows = [r for r in rows if r["tid"] == t["tid"]]
@@ -1000,7 +1195,6 @@ def oracle(case, obs):
                     if got != _render(r["fe"][ci]):
                         return f"for_each: column {name} of {r['fe']} arrived as {got!r}"
     # row counts and outcome, as the property prescribes them
-    counts, must_fail = spec_counts(case)
     got = Counter(r["tid"] for r in rows)
     msg = None
     if must_fail and err is None:
@@ -1069,6 +1263,9 @@ def stats(cases, obss):
                 draws["m=0" if m == 0 else "m<n" if m < n else "m=n" if m == n else "m=n+1" if m == n + 1
                       else "m multiple of n" if n and m % n == 0 else "m>n"] += 1
         feats["two_iterations"] += c.get("iters", 1) > 1
+        feats["stopping_criterion_on_dataset_table"] += bool(c.get("target"))
+        feats["sql_primary_key"] += any("pk" in ds for ds in c["datasets"].values())
+        feats["dataset_named_by_outer_record(oracle only)"] += any(u.get("dyn") for _k, _t, _s, u, _b in all_uses(c))
         nsh = sum(1 for _k, _t, _s, u, _b in all_uses(c) if u["mode"] == "shuffle")
         feats["shuffled_uses>=2 (interleaved)"] += nsh >= 2
         feats["nested_objects"] += any(t["nested"] for t, _ in walk(c["recipe"]))
@@ -1087,6 +1284,8 @@ def _with_rows(case, name, rows):
     ds["rows"] = rows
     ds["text"] = render_csv(__import__("random").Random(0), ds["header"], rows, False, "minimal", False, True)
     ds["bom"] = False
+    if "pk" in ds:
+        ds["ddl"], ds["sql_rows"] = sql_layout(ds)
     if "long" in ds:
         bad = [i for i, r in enumerate(rows) if len(r) > len(ds["header"])]
         if bad:
